@@ -1,6 +1,7 @@
 #![allow(dead_code)]
 mod base;
 mod c01;
+mod c11;
 mod deleg;
 mod http;
 mod c06;
@@ -19,6 +20,7 @@ fn main() {
     let rest = &args[2..].to_vec();
     match args[1].as_str() {
         "c01" => c01::run(rest),
+        "c11" => c11::run(rest),
         "deleg" => deleg::run(rest),
         "c18" => http::run(rest),
         "urljoin" => { let b = url::Url::parse(&rest[0]).unwrap(); for a in &rest[1..] { println!("{:?} -> {:?}", a, b.join(a).map(|u| u.to_string())); } }
